@@ -11,14 +11,26 @@ import (
 // C01 — ordered-list semantics under any operation history (Engine A).
 
 type listInst struct {
-	s   stackage.Stack
-	m   *listModel
-	tok int // fresh-token counter
+	s     stackage.Stack
+	m     *listModel
+	tok   int    // fresh-token counter
+	shape string // listCfg.Tok
 }
+
+type tokStruct struct{ Names []string }
 
 func (in *listInst) fresh() any {
 	in.tok++
-	return fmt.Sprintf("t%d", in.tok)
+	t := fmt.Sprintf("t%d", in.tok)
+	switch in.shape {
+	case "slice":
+		return []string{t}
+	case "map":
+		return map[string]int{t: 1}
+	case "struct":
+		return tokStruct{[]string{t}}
+	}
+	return t
 }
 
 type listCfg struct {
@@ -34,6 +46,9 @@ type listCfg struct {
 	// Prefill: the machine starts from a stack that already holds this many elements (the long regime:
 	// every operation of the alphabet, to a small depth, around a long stack)
 	Prefill int `json:"prefill,omitempty"`
+	// Tok: the shape of the element values ("" = strings; "slice", "map", "struct" = values Go cannot
+	// compare with ==, each still carrying its own fresh token)
+	Tok string `json:"element_shape,omitempty"`
 }
 
 func (c listCfg) String() string {
@@ -49,6 +64,9 @@ func (c listCfg) String() string {
 	}
 	if c.Prefill > 0 {
 		s += fmt.Sprintf(" prefilled=%d", c.Prefill)
+	}
+	if c.Tok != "" {
+		s += " elements=" + c.Tok
 	}
 	return s
 }
@@ -85,7 +103,7 @@ func (c listCfg) build() *listInst {
 	if c.Deco {
 		decorate(s).SetErr(errCat).SetValidityPolicy(func(...any) error { return errCat })
 	}
-	in := &listInst{s: s, m: m}
+	in := &listInst{s: s, m: m, shape: c.Tok}
 	if c.Prefill > 0 {
 		vals := make([]any, c.Prefill)
 		for i := range vals {
@@ -142,7 +160,7 @@ func c01Ops(maxL int) []listOp {
 		listOp{"Pop", 0, always, func(in *listInst) string {
 			gv, gok := in.s.Pop()
 			wv, wok := in.m.pop()
-			if gv != wv || gok != wok {
+			if diffAny(gv, wv) || gok != wok {
 				return fmt.Sprintf("Pop returned (%s,%v) want (%s,%v)", show(gv), gok, show(wv), wok)
 			}
 			return ""
@@ -203,7 +221,7 @@ func c01Ops(maxL int) []listOp {
 			i := rel.f(len(in.m.items))
 			gv, gok := in.s.Remove(i)
 			wv, wok := in.m.remove(i)
-			if gv != wv || gok != wok {
+			if diffAny(gv, wv) || gok != wok {
 				return fmt.Sprintf("Remove(%d) returned (%s,%v) want (%s,%v) (neg=%v fwd=%v)", i, show(gv), gok, show(wv), wok, in.m.neg, in.m.fwd)
 			}
 			return ""
@@ -220,7 +238,7 @@ func c01Ops(maxL int) []listOp {
 			i := rel.f(len(in.m.items))
 			gv, gok := in.s.Remove(i)
 			wv, wok := in.m.remove(i)
-			if gv != wv || gok != wok {
+			if diffAny(gv, wv) || gok != wok {
 				return fmt.Sprintf("Remove(%d) returned (%s,%v) want (%s,%v)", i, show(gv), gok, show(wv), wok)
 			}
 			return ""
@@ -247,7 +265,7 @@ func c01Ops(maxL int) []listOp {
 			for len(in.m.items) > keep {
 				gv, gok := in.s.Pop()
 				wv, wok := in.m.pop()
-				if gv != wv || gok != wok {
+				if diffAny(gv, wv) || gok != wok {
 					return fmt.Sprintf("Pop (with %d left) returned (%s,%v) want (%s,%v)", len(in.m.items)+1, show(gv), gok, show(wv), wok)
 				}
 				if in.s.Len() != len(in.m.items) {
@@ -269,7 +287,7 @@ func c01Ops(maxL int) []listOp {
 		ops = append(ops, listOp{fmt.Sprintf("Remove(%d)", i), 0, has, func(in *listInst) string {
 			gv, gok := in.s.Remove(i)
 			wv, wok := in.m.remove(i)
-			if gv != wv || gok != wok {
+			if diffAny(gv, wv) || gok != wok {
 				return fmt.Sprintf("Remove(%d) returned (%s,%v) want (%s,%v)", i, show(gv), gok, show(wv), wok)
 			}
 			return ""
@@ -368,15 +386,15 @@ func c01Configs(c *Ctx) []listCfg {
 						if cp > 0 {
 							ml = cp + 1 // growth is attempted on a full stack too: the model drops the surplus
 						}
-						out = append(out, listCfg{k, fifo, cp, neg, fwd, ml, false, false, false, 0})
+						out = append(out, listCfg{k, fifo, cp, neg, fwd, ml, false, false, false, 0, ""})
 						if neg == fwd {
-							out = append(out, listCfg{k, fifo, cp, neg, fwd, ml, neg, false, true, 0})
+							out = append(out, listCfg{k, fifo, cp, neg, fwd, ml, neg, false, true, 0, ""})
 						}
 						if !neg && !fwd {
 							// the same histories through the locking paths and the push-policy path
-							out = append(out, listCfg{k, fifo, cp, neg, fwd, ml, true, false, false, 0}, listCfg{k, fifo, cp, neg, fwd, ml, true, true, false, 0})
+							out = append(out, listCfg{k, fifo, cp, neg, fwd, ml, true, false, false, 0, ""}, listCfg{k, fifo, cp, neg, fwd, ml, true, true, false, 0, ""})
 							if !c.Quick() {
-								out = append(out, listCfg{k, fifo, cp, neg, fwd, ml, false, true, false, 0})
+								out = append(out, listCfg{k, fifo, cp, neg, fwd, ml, false, true, false, 0, ""})
 							}
 						}
 					}
@@ -393,9 +411,15 @@ func c01Configs(c *Ctx) []listCfg {
 		out = append(out, listCfg{Kind: kindNames[i%5], FIFO: i%2 == 1, MaxL: n + 3, Prefill: n},
 			listCfg{Kind: kindNames[(i+2)%5], FIFO: i%2 == 0, Cap: n + 2, Neg: true, Fwd: true, MaxL: n + 3, Prefill: n, Mtx: i%2 == 0})
 	}
+	// element values Go's == cannot compare (slices, maps, structs holding one): the list operations must
+	// not care what an element is
+	for i, tok := range []string{"slice", "map", "struct"} {
+		out = append(out, listCfg{Kind: "LIST", FIFO: i == 1, MaxL: maxL, Tok: tok},
+			listCfg{Kind: kindNames[i+1], FIFO: i != 1, Cap: capk, Neg: true, Fwd: true, MaxL: capk + 1, Mtx: i == 2, Pol: i == 0, Tok: tok})
+	}
 	// capacities at the edge of int (the stored limit is k+1): the stack must simply never fill up
 	for _, cp := range []int{math.MaxInt, math.MaxInt - 1, 1 << 32, -1, -2, -7, math.MinInt} {
-		out = append(out, listCfg{"LIST", false, cp, false, false, 2, false, false, false, 0}, listCfg{"OR", true, cp, true, true, 2, false, true, false, 0})
+		out = append(out, listCfg{"LIST", false, cp, false, false, 2, false, false, false, 0, ""}, listCfg{"OR", true, cp, true, true, 2, false, true, false, 0, ""})
 	}
 	return out
 }
